@@ -73,7 +73,7 @@ def main():
                 oks = 0; fails = 0; tail = ''
                 for i in range(3):
                     rc, out = sh(exe, timeout=300, env=dict(os.environ, TSAN_OPTIONS='halt_on_error=1:exitcode=66', ASAN_OPTIONS='detect_leaks=1'))
-                    if rc == 0 and 'FAIL' not in out.upper().replace('PASS', ''):
+                    if rc == 0 and not any(l.strip().startswith('FAIL') for l in out.split('\n')):
                         oks += 1
                     else:
                         fails += 1; tail = out[-200:].replace('\n', ' ')
